@@ -95,6 +95,10 @@ class ThermochemBase(object):
              uppers bounds of temperatures [K] for which the correlation is
              valid.
         """
+        if range is not None:
+            range = tuple(range)
+            assert len(range) == 2
+            assert range[1] >= range[0]
         self.range = range
 
     @abc.abstractmethod
